@@ -720,19 +720,25 @@ func (n *Node) GetHandle() *Handle {
 }
 
 func (n *Node) callFinalizer() {
+	// Close(force) and a concurrent Handle.Release (or a cacher eviction)
+	// may both get here for the same node: take the value and the delete
+	// funcs under the node lock so that each of them runs once.
+	n.mu.Lock()
+	value, delFuncs := n.value, n.delFuncs
+	n.value, n.delFuncs = nil, nil
+	n.mu.Unlock()
+
 	// Call releaser.
-	if n.value != nil {
-		if r, ok := n.value.(util.Releaser); ok {
+	if value != nil {
+		if r, ok := value.(util.Releaser); ok {
 			r.Release()
 		}
-		n.value = nil
 	}
 
 	// Call delete funcs.
-	for _, f := range n.delFuncs {
+	for _, f := range delFuncs {
 		f()
 	}
-	n.delFuncs = nil
 }
 
 func (n *Node) unRefInternal(updateStat bool) {
